@@ -40,7 +40,7 @@ type Mixture struct {
 
 func NewMixture(weights Vector) (*Mixture, error) {
   for i := 0; i < weights.Dim(); i++ {
-    if weights.At(i).GetFloat64() < 0.0 {
+    if !(weights.At(i).GetFloat64() >= 0.0) {
       return nil, fmt.Errorf("weights must be positive")
     }
   }
